@@ -51,7 +51,7 @@ def r08a(chk, rid='R08.a'):
                                 'codecs.lookup': lambda name: (None, decoder) if name == 'css' else None,
                                 'AttributeError': 'AttributeError', 'UnicodeDecodeError': 'UnicodeDecodeError',
                             }
-                            ev = Evaluator(fn, intrinsics=intr)
+                            ev = Evaluator(fn, intrinsics=intr, module=chk.repo.mod(UTIL))
                             got = ev.run(url='u', fetcher=lambda url, r=r: r, overrideEncoding=ov, parentEncoding=par)
                             n += 1
                             if shape != 'data':
